@@ -1344,11 +1344,15 @@ class MeshRegion:
                 #         = (BR*cosBeta-BZ*sinBeta, 0, BZ*cosBeta+BR*sinBeta)
                 #           /(Bp*hy*cosBeta)
                 #         = (BR-BZ*tanBeta, 0, BZ+BR*tanBeta)/(Bp*hy)
+                # Note: tanBeta = sinBeta/cosBeta with cosBeta = e_x_hat.Grad(psi)_hat and
+                # sinBeta = e_x_hat.Bp_hat, and Grad(y) is perpendicular to e_x, which
+                # means Bp rotated by -beta, i.e.
+                # Grad(y) = (BR+BZ*tanBeta, 0, BZ-BR*tanBeta)/(Bp*hy)
                 self.curl_bOverB_y = (
                     curl_bOverB_Rhat(self.Rxy, self.Zxy)
-                    * (BR(self.Rxy, self.Zxy) - BZ(self.Rxy, self.Zxy) * self.tanBeta)
+                    * (BR(self.Rxy, self.Zxy) + BZ(self.Rxy, self.Zxy) * self.tanBeta)
                     + curl_bOverB_Zhat(self.Rxy, self.Zxy)
-                    * (BZ(self.Rxy, self.Zxy) + BR(self.Rxy, self.Zxy) * self.tanBeta)
+                    * (BZ(self.Rxy, self.Zxy) - BR(self.Rxy, self.Zxy) * self.tanBeta)
                 ) / (self.Bpxy * self.hy)
 
             # Grad(z) = Grad(zeta) - Bt*hy/(Bp*R)*Grad(y) - I*Grad(x)
